@@ -166,8 +166,12 @@ def _covs(table):
     return {f'param_covs["{k}"]': v for k, v in table.items()}
 
 
-def translate(src_root):
-    """returns the text of the generated Lean file; raises Untranslatable with the reason when the source has left the fragment"""
+FORMULA_PARTS = ("temps", "derivs", "terms", "weighted", "mc")
+
+
+def translate(src_root, want=FORMULA_PARTS):
+    """returns the text of the generated Lean file (only the parts in `want`); raises Untranslatable with the reason when the
+    source has left the fragment"""
     M = _methods(src_root)
     D = Block(M["calibrate_double_ended"])
     S = Block(M["calibrate_single_ended"])
@@ -191,48 +195,50 @@ open DtsVerif.Propagate
 variable {K : Type} [Field K]
 """)
     # ---------------------------------------------------------------------------------------- temperature equations
-    base = {'params["gamma"]': "γ", "np.log(self.st / self.ast)": "IF", "np.log(self.rst / self.rast)": "IB"}
-    t = Tr({**base, 'params["df"]': "df", 'params["alpha"]': "α", 'params["talpha_fw_full"]': "τF"})
-    emit(f"def tmpfD (γ IF df α τF : K) : K := {t.tr(D.get('tmpf'))}")
-    emit("theorem tmpfD_eq (γ IF df α τF : K) : tmpfD γ IF df α τF = γ / (IF + df + α + τF) := by unfold tmpfD; ring\n")
-    t = Tr({**base, 'params["db"]': "db", 'params["alpha"]': "α", 'params["talpha_bw_full"]': "τB"})
-    emit(f"def tmpbD (γ IB db α τB : K) : K := {t.tr(D.get('tmpb'))}")
-    emit("theorem tmpbD_eq (γ IB db α τB : K) : tmpbD γ IB db α τB = γ / (IB + db - α + τB) := by unfold tmpbD; ring\n")
-    t = Tr({**base, 'params["c"]': "cc", 'params["alpha"]': "α", 'params["talpha_fw_full"]': "τF"})
-    emit(f"def tmpfS (γ IF cc α τF : K) : K := {t.tr(S.get('tmpf'))}")
-    emit("theorem tmpfS_eq (γ IF cc α τF : K) : tmpfS γ IF cc α τF = γ / (IF + cc + α + τF) := by unfold tmpfS; ring\n")
-    for blk, nm in ((D, "D"), (S, "S")):
+    if "temps" in want:
+        base = {'params["gamma"]': "γ", "np.log(self.st / self.ast)": "IF", "np.log(self.rst / self.rast)": "IB"}
+        t = Tr({**base, 'params["df"]': "df", 'params["alpha"]': "α", 'params["talpha_fw_full"]': "τF"})
+        emit(f"def tmpfD (γ IF df α τF : K) : K := {t.tr(D.get('tmpf'))}")
+        emit("theorem tmpfD_eq (γ IF df α τF : K) : tmpfD γ IF df α τF = γ / (IF + df + α + τF) := by unfold tmpfD; ring\n")
+        t = Tr({**base, 'params["db"]': "db", 'params["alpha"]': "α", 'params["talpha_bw_full"]': "τB"})
+        emit(f"def tmpbD (γ IB db α τB : K) : K := {t.tr(D.get('tmpb'))}")
+        emit("theorem tmpbD_eq (γ IB db α τB : K) : tmpbD γ IB db α τB = γ / (IB + db - α + τB) := by unfold tmpbD; ring\n")
+        t = Tr({**base, 'params["c"]': "cc", 'params["alpha"]': "α", 'params["talpha_fw_full"]': "τF"})
+        emit(f"def tmpfS (γ IF cc α τF : K) : K := {t.tr(S.get('tmpf'))}")
+        emit("theorem tmpfS_eq (γ IF cc α τF : K) : tmpfS γ IF cc α τF = γ / (IF + cc + α + τF) := by unfold tmpfS; ring\n")
+        for blk, nm in ((D, "D"), (S, "S")):
+            t = Tr({"tmpf": "TF", "tmpb": "TB"})
+            emit(f"def outTmpf{nm} (TF c273 : K) : K := {t.tr(blk.get('out[\"tmpf\"]'))}")
+            emit(f"theorem outTmpf{nm}_eq (TF c273 : K) : outTmpf{nm} TF c273 = TF - c273 := rfl")
         t = Tr({"tmpf": "TF", "tmpb": "TB"})
-        emit(f"def outTmpf{nm} (TF c273 : K) : K := {t.tr(blk.get('out[\"tmpf\"]'))}")
-        emit(f"theorem outTmpf{nm}_eq (TF c273 : K) : outTmpf{nm} TF c273 = TF - c273 := rfl")
-    t = Tr({"tmpf": "TF", "tmpb": "TB"})
-    emit(f"def outTmpbD (TB c273 : K) : K := {t.tr(D.get('out[\"tmpb\"]'))}")
-    emit("theorem outTmpbD_eq (TB c273 : K) : outTmpbD TB c273 = TB - c273 := rfl\n")
+        emit(f"def outTmpbD (TB c273 : K) : K := {t.tr(D.get('out[\"tmpb\"]'))}")
+        emit("theorem outTmpbD_eq (TB c273 : K) : outTmpbD TB c273 = TB - c273 := rfl\n")
     # ---------------------------------------------------------------------------------------- derivative dictionaries
-    dd = dict(_dict_items(D.get("deriv_dict")))
-    fw_keys = ["T_gamma_fw", "T_st_fw", "T_ast_fw", "T_df_fw", "T_alpha_fw", "T_ta_fw"]
-    bw_keys = ["T_gamma_bw", "T_rst_bw", "T_rast_bw", "T_db_bw", "T_alpha_bw", "T_ta_bw"]
-    if sorted(dd) != sorted(fw_keys + bw_keys):
-        raise Untranslatable(f"deriv_dict (double) has entries {sorted(dd)}")
-    t = Tr({"tmpf": "T", 'params["gamma"]': "γ", "self.st": "st", "self.ast": "ast"})
-    emit(f"def derivsFwD (T γ st ast : K) : Derivs K :=\n  {_struct(DERIV_FIELDS, [t.tr(dd[k]) for k in fw_keys])}")
-    emit("theorem derivsFwD_eq (T γ st ast : K) : derivsFwD T γ st ast = derivsFw T γ st ast := by\n"
-         "  simp only [derivsFwD, derivsFw, Derivs.mk.injEq, true_and, and_true]\n  repeat' apply And.intro\n  all_goals (first | rfl | ring)\n")
-    t = Tr({"tmpb": "T", 'params["gamma"]': "γ", "self.rst": "rst", "self.rast": "rast"})
-    emit(f"def derivsBwD (T γ rst rast : K) : Derivs K :=\n  {_struct(DERIV_FIELDS, [t.tr(dd[k]) for k in bw_keys])}")
-    emit("theorem derivsBwD_eq (T γ rst rast : K) : derivsBwD T γ rst rast = derivsBw T γ rst rast := by\n"
-         "  simp only [derivsBwD, derivsBw, Derivs.mk.injEq, true_and, and_true]\n  repeat' apply And.intro\n  all_goals (first | rfl | ring)\n")
-    ds = dict(_dict_items(S.get("deriv_dict")))
-    s_keys = ["T_gamma_fw", "T_st_fw", "T_ast_fw", "T_c_fw", "T_alpha_fw", "T_ta_fw"]
-    if sorted(ds) != sorted(s_keys + ["T_dalpha_fw"]):
-        raise Untranslatable(f"deriv_dict (single) has entries {sorted(ds)}")
-    t = Tr({"tmpf": "T", 'params["gamma"]': "γ", "self.st": "st", "self.ast": "ast", "self.x": "x"})
-    emit(f"def derivsFwS (T γ st ast : K) : Derivs K :=\n  {_struct(DERIV_FIELDS, [t.tr(ds[k]) for k in s_keys])}")
-    emit("theorem derivsFwS_eq (T γ st ast : K) : derivsFwS T γ st ast = derivsFw T γ st ast := by\n"
-         "  simp only [derivsFwS, derivsFw, Derivs.mk.injEq, true_and, and_true]\n  repeat' apply And.intro\n  all_goals (first | rfl | ring)\n")
-    emit(f"def dalphaDerivS (T γ x : K) : K := {t.tr(ds['T_dalpha_fw'])}")
-    emit("theorem dalphaDerivS_eq (T γ x st ast : K) : dalphaDerivS T γ x = x * (derivsFw T γ st ast).a := by\n"
-         "  simp only [dalphaDerivS, derivsFw]; ring\n")
+    if "derivs" in want:
+        dd = dict(_dict_items(D.get("deriv_dict")))
+        fw_keys = ["T_gamma_fw", "T_st_fw", "T_ast_fw", "T_df_fw", "T_alpha_fw", "T_ta_fw"]
+        bw_keys = ["T_gamma_bw", "T_rst_bw", "T_rast_bw", "T_db_bw", "T_alpha_bw", "T_ta_bw"]
+        if sorted(dd) != sorted(fw_keys + bw_keys):
+            raise Untranslatable(f"deriv_dict (double) has entries {sorted(dd)}")
+        t = Tr({"tmpf": "T", 'params["gamma"]': "γ", "self.st": "st", "self.ast": "ast"})
+        emit(f"def derivsFwD (T γ st ast : K) : Derivs K :=\n  {_struct(DERIV_FIELDS, [t.tr(dd[k]) for k in fw_keys])}")
+        emit("theorem derivsFwD_eq (T γ st ast : K) : derivsFwD T γ st ast = derivsFw T γ st ast := by\n"
+             "  simp only [derivsFwD, derivsFw, Derivs.mk.injEq, true_and, and_true]\n  repeat' apply And.intro\n  all_goals (first | rfl | ring)\n")
+        t = Tr({"tmpb": "T", 'params["gamma"]': "γ", "self.rst": "rst", "self.rast": "rast"})
+        emit(f"def derivsBwD (T γ rst rast : K) : Derivs K :=\n  {_struct(DERIV_FIELDS, [t.tr(dd[k]) for k in bw_keys])}")
+        emit("theorem derivsBwD_eq (T γ rst rast : K) : derivsBwD T γ rst rast = derivsBw T γ rst rast := by\n"
+             "  simp only [derivsBwD, derivsBw, Derivs.mk.injEq, true_and, and_true]\n  repeat' apply And.intro\n  all_goals (first | rfl | ring)\n")
+        ds = dict(_dict_items(S.get("deriv_dict")))
+        s_keys = ["T_gamma_fw", "T_st_fw", "T_ast_fw", "T_c_fw", "T_alpha_fw", "T_ta_fw"]
+        if sorted(ds) != sorted(s_keys + ["T_dalpha_fw"]):
+            raise Untranslatable(f"deriv_dict (single) has entries {sorted(ds)}")
+        t = Tr({"tmpf": "T", 'params["gamma"]': "γ", "self.st": "st", "self.ast": "ast", "self.x": "x"})
+        emit(f"def derivsFwS (T γ st ast : K) : Derivs K :=\n  {_struct(DERIV_FIELDS, [t.tr(ds[k]) for k in s_keys])}")
+        emit("theorem derivsFwS_eq (T γ st ast : K) : derivsFwS T γ st ast = derivsFw T γ st ast := by\n"
+             "  simp only [derivsFwS, derivsFw, Derivs.mk.injEq, true_and, and_true]\n  repeat' apply And.intro\n  all_goals (first | rfl | ring)\n")
+        emit(f"def dalphaDerivS (T γ x : K) : K := {t.tr(ds['T_dalpha_fw'])}")
+        emit("theorem dalphaDerivS_eq (T γ x st ast : K) : dalphaDerivS T γ x = x * (derivsFw T γ st ast).a := by\n"
+             "  simp only [dalphaDerivS, derivsFw]; ring\n")
     # ---------------------------------------------------------------------------------------- variance term lists, double
     def jatoms(prefix, keys, var="J"):
         return {f"{prefix}.{k}": f"{var}.{f}" for k, f in zip(keys, DERIV_FIELDS)}
@@ -242,144 +248,149 @@ variable {K : Type} [Field K]
         items = _dict_items(blk.get(name))
         return [k for k, _ in items], [t.tr(v) for _, v in items]
 
-    names_fw, terms = var_list(D, "var_fw_dict", {**jatoms("deriv_ds", fw_keys), **_covs(COV_FW_D), **MEAS})
-    emit(f"def varFwD (J : Derivs K) (vst vast : K) (c : Covs K) : List K :=\n  {_lean_list(terms)}")
-    emit("theorem varFwD_eq (J : Derivs K) (vst vast : K) (c : Covs K) : varFwD J vst vast c = termsChannel J vst vast c := by\n"
-         "  simp only [varFwD, termsChannel, List.cons.injEq, true_and, and_true]\n  repeat' apply And.intro\n  all_goals (first | rfl | ring)\n")
-    meas_bw = {"parse_st_var(self.rst, rst_var)": "vst", "parse_st_var(self.rast, rast_var)": "vast"}
-    names_bw, terms = var_list(D, "var_bw_dict", {**jatoms("deriv_ds", bw_keys), **_covs(COV_BW_D), **meas_bw})
-    emit(f"def varBwD (J : Derivs K) (vst vast : K) (c : Covs K) : List K :=\n  {_lean_list(terms)}")
-    emit("theorem varBwD_eq (J : Derivs K) (vst vast : K) (c : Covs K) : varBwD J vst vast c = termsChannel J vst vast c := by\n"
-         "  simp only [varBwD, termsChannel, List.cons.injEq, true_and, and_true]\n  repeat' apply And.intro\n  all_goals (first | rfl | ring)\n")
-    # totals
-    for key, da, dim in (("tmpf_var", "var_fw_da", "comp_fw"), ("tmpb_var", "var_bw_da", "comp_bw"), ("tmpw_var", "var_w_da", "comp_w")):
-        src = ast.unparse(D.get(f'out["{key}"]'))
-        if src.replace("'", '"') != f'out["{da}"].sum(dim="{dim}")':
-            raise Untranslatable(f"{key} is no longer the sum of {da} over {dim}: {src}")
-    src = ast.unparse(S.get('out["tmpf_var"]')).replace("'", '"')
-    if src != 'out["var_fw_da"].sum(dim="comp_fw")':
-        raise Untranslatable(f"single-ended tmpf_var is no longer the sum of var_fw_da: {src}")
-    for blk, pairs in ((D, (("var_fw_da", "var_fw_dict", "comp_fw"), ("var_bw_da", "var_bw_dict", "comp_bw"), ("var_w_da", "var_w_dict", "comp_w"))),
-                       (S, (("var_fw_da", "var_fw_dict", "comp_fw"),))):
-        for da, dct, dim in pairs:
-            src = ast.unparse(blk.get(f'out["{da}"]')).replace("'", '"')
-            if src != f'xr.Dataset({dct}).to_array(dim="{dim}")':
-                raise Untranslatable(f"{da} is no longer built from {dct}: {src}")
+    if "terms" in want:
+        names_fw, terms = var_list(D, "var_fw_dict", {**jatoms("deriv_ds", fw_keys), **_covs(COV_FW_D), **MEAS})
+        emit(f"def varFwD (J : Derivs K) (vst vast : K) (c : Covs K) : List K :=\n  {_lean_list(terms)}")
+        emit("theorem varFwD_eq (J : Derivs K) (vst vast : K) (c : Covs K) : varFwD J vst vast c = termsChannel J vst vast c := by\n"
+             "  simp only [varFwD, termsChannel, List.cons.injEq, true_and, and_true]\n  repeat' apply And.intro\n  all_goals (first | rfl | ring)\n")
+        meas_bw = {"parse_st_var(self.rst, rst_var)": "vst", "parse_st_var(self.rast, rast_var)": "vast"}
+        names_bw, terms = var_list(D, "var_bw_dict", {**jatoms("deriv_ds", bw_keys), **_covs(COV_BW_D), **meas_bw})
+        emit(f"def varBwD (J : Derivs K) (vst vast : K) (c : Covs K) : List K :=\n  {_lean_list(terms)}")
+        emit("theorem varBwD_eq (J : Derivs K) (vst vast : K) (c : Covs K) : varBwD J vst vast c = termsChannel J vst vast c := by\n"
+             "  simp only [varBwD, termsChannel, List.cons.injEq, true_and, and_true]\n  repeat' apply And.intro\n  all_goals (first | rfl | ring)\n")
+        # totals
+        for key, da, dim in (("tmpf_var", "var_fw_da", "comp_fw"), ("tmpb_var", "var_bw_da", "comp_bw"), ("tmpw_var", "var_w_da", "comp_w")):
+            src = ast.unparse(D.get(f'out["{key}"]'))
+            if src.replace("'", '"') != f'out["{da}"].sum(dim="{dim}")':
+                raise Untranslatable(f"{key} is no longer the sum of {da} over {dim}: {src}")
+        src = ast.unparse(S.get('out["tmpf_var"]')).replace("'", '"')
+        if src != 'out["var_fw_da"].sum(dim="comp_fw")':
+            raise Untranslatable(f"single-ended tmpf_var is no longer the sum of var_fw_da: {src}")
+        for blk, pairs in ((D, (("var_fw_da", "var_fw_dict", "comp_fw"), ("var_bw_da", "var_bw_dict", "comp_bw"), ("var_w_da", "var_w_dict", "comp_w"))),
+                           (S, (("var_fw_da", "var_fw_dict", "comp_fw"),))):
+            for da, dct, dim in pairs:
+                src = ast.unparse(blk.get(f'out["{da}"]')).replace("'", '"')
+                if src != f'xr.Dataset({dct}).to_array(dim="{dim}")':
+                    raise Untranslatable(f"{da} is no longer built from {dct}: {src}")
     # ---------------------------------------------------------------------------------------- weighted temperature
-    oa = {'out["tmpf_var"]': "vf", 'out["tmpb_var"]': "vb", 'out["tmpw_var_approx"]': "(approxD vf vb)", "tmpf": "TF", "tmpb": "TB"}
-    t = Tr(oa)
-    emit(f"def approxD (vf vb : K) : K := {t.tr(D.get('out[\"tmpw_var_approx\"]'))}")
-    emit("theorem approxD_eq (vf vb : K) : approxD vf vb = C06.approx vf vb := rfl")
-    emit(f"def tmpwD (TF TB vf vb c273 : K) : K := {t.tr(D.get('out[\"tmpw\"]'))}")
-    emit("theorem tmpwD_eq (TF TB vf vb c273 : K) : tmpwD TF TB vf vb c273 = C06.tmpw TF TB vf vb - c273 := rfl")
-    emit(f"def weightsfD (vf vb : K) : K := {t.tr(D.get('weightsf'))}")
-    emit(f"def weightsbD (vf vb : K) : K := {t.tr(D.get('weightsb'))}")
-    emit("theorem weightsfD_eq (vf vb : K) : weightsfD vf vb = C06.weightF vf vb := rfl")
-    emit("theorem weightsbD_eq (vf vb : K) : weightsbD vf vb = C06.weightB vf vb := rfl")
-    t = Tr({"tmpf_var_excl_par": "mf", "tmpb_var_excl_par": "mb"})
-    emit(f"def lowerD (mf mb : K) : K := {t.tr(D.get('out[\"tmpw_var_lower\"]'))}")
-    emit("theorem lowerD_eq (mf mb : K) : lowerD mf mb = C06.approx mf mb := rfl")
-    for key, da, dim, sel in (("tmpf_var_excl_par", "var_fw_da", "comp_fw", ["dT_dst", "dT_dast"]),
-                              ("tmpb_var_excl_par", "var_bw_da", "comp_bw", ["dT_drst", "dT_drast"])):
-        src = ast.unparse(D.get(key)).replace("'", '"')
-        want = f'out["{da}"].sel({dim}=["{sel[0]}", "{sel[1]}"]).sum(dim="{dim}")'
-        if src != want:
-            raise Untranslatable(f"{key} is no longer the two intensity terms: {src}")
-    if names_fw[:2] != ["dT_dst", "dT_dast"] or names_bw[:2] != ["dT_drst", "dT_drast"]:
-        raise Untranslatable("the intensity terms are no longer the first two entries of var_fw_dict / var_bw_dict")
-    emit("")
-    d2 = dict(_dict_items(D.get("deriv_dict2")))
-    sub = {"weightsf": "wf", "weightsb": "wb"}
-    sub.update({f'deriv_dict["{k}"]': f"F.{f}" for k, f in zip(fw_keys, DERIV_FIELDS)})
-    sub.update({f'deriv_dict["{k}"]': f"B.{f}" for k, f in zip(bw_keys, DERIV_FIELDS)})
-    t2 = Tr(sub)
-    atoms_w = {f"deriv_ds2.{k}": t2.tr(v) for k, v in d2.items()}
-    atoms_w.update(_covs(COV_W))
-    atoms_w.update(MEAS)
-    names_w, terms = var_list(D, "var_w_dict", atoms_w)
-    emit(f"def varWD (wf wb : K) (F B : Derivs K) (vst vast vrst vrast : K) (c : CovsW K) : List K :=\n  {_lean_list(terms)}")
-    n = len(terms)
-    emit("theorem varWD_eq (wf wb : K) (F B : Derivs K) (vst vast vrst vrast : K) (c : CovsW K) :\n"
-         "    varWD wf wb F B vst vast vrst vrast c = termsW wf wb F B vst vast vrst vrast c := by\n"
-         f"  simp only [varWD, termsW, List.cons.injEq, true_and, and_true]\n  repeat' apply And.intro\n  all_goals (first | rfl | ring)\n")
+    if "weighted" in want:
+        oa = {'out["tmpf_var"]': "vf", 'out["tmpb_var"]': "vb", 'out["tmpw_var_approx"]': "(approxD vf vb)", "tmpf": "TF", "tmpb": "TB"}
+        t = Tr(oa)
+        emit(f"def approxD (vf vb : K) : K := {t.tr(D.get('out[\"tmpw_var_approx\"]'))}")
+        emit("theorem approxD_eq (vf vb : K) : approxD vf vb = C06.approx vf vb := rfl")
+        emit(f"def tmpwD (TF TB vf vb c273 : K) : K := {t.tr(D.get('out[\"tmpw\"]'))}")
+        emit("theorem tmpwD_eq (TF TB vf vb c273 : K) : tmpwD TF TB vf vb c273 = C06.tmpw TF TB vf vb - c273 := rfl")
+        emit(f"def weightsfD (vf vb : K) : K := {t.tr(D.get('weightsf'))}")
+        emit(f"def weightsbD (vf vb : K) : K := {t.tr(D.get('weightsb'))}")
+        emit("theorem weightsfD_eq (vf vb : K) : weightsfD vf vb = C06.weightF vf vb := rfl")
+        emit("theorem weightsbD_eq (vf vb : K) : weightsbD vf vb = C06.weightB vf vb := rfl")
+        t = Tr({"tmpf_var_excl_par": "mf", "tmpb_var_excl_par": "mb"})
+        emit(f"def lowerD (mf mb : K) : K := {t.tr(D.get('out[\"tmpw_var_lower\"]'))}")
+        emit("theorem lowerD_eq (mf mb : K) : lowerD mf mb = C06.approx mf mb := rfl")
+        for key, da, dim, sel in (("tmpf_var_excl_par", "var_fw_da", "comp_fw", ["dT_dst", "dT_dast"]),
+                                  ("tmpb_var_excl_par", "var_bw_da", "comp_bw", ["dT_drst", "dT_drast"])):
+            src = ast.unparse(D.get(key)).replace("'", '"')
+            expect = f'out["{da}"].sel({dim}=["{sel[0]}", "{sel[1]}"]).sum(dim="{dim}")'
+            if src != expect:
+                raise Untranslatable(f"{key} is no longer the two intensity terms: {src}")
+        if names_fw[:2] != ["dT_dst", "dT_dast"] or names_bw[:2] != ["dT_drst", "dT_drast"]:
+            raise Untranslatable("the intensity terms are no longer the first two entries of var_fw_dict / var_bw_dict")
+    if "terms" in want:
+        emit("")
+        d2 = dict(_dict_items(D.get("deriv_dict2")))
+        sub = {"weightsf": "wf", "weightsb": "wb"}
+        sub.update({f'deriv_dict["{k}"]': f"F.{f}" for k, f in zip(fw_keys, DERIV_FIELDS)})
+        sub.update({f'deriv_dict["{k}"]': f"B.{f}" for k, f in zip(bw_keys, DERIV_FIELDS)})
+        t2 = Tr(sub)
+        atoms_w = {f"deriv_ds2.{k}": t2.tr(v) for k, v in d2.items()}
+        atoms_w.update(_covs(COV_W))
+        atoms_w.update(MEAS)
+        names_w, terms = var_list(D, "var_w_dict", atoms_w)
+        emit(f"def varWD (wf wb : K) (F B : Derivs K) (vst vast vrst vrast : K) (c : CovsW K) : List K :=\n  {_lean_list(terms)}")
+        n = len(terms)
+        emit("theorem varWD_eq (wf wb : K) (F B : Derivs K) (vst vast vrst vrast : K) (c : CovsW K) :\n"
+             "    varWD wf wb F B vst vast vrst vrast c = termsW wf wb F B vst vast vrst vrast c := by\n"
+             f"  simp only [varWD, termsW, List.cons.injEq, true_and, and_true]\n  repeat' apply And.intro\n  all_goals (first | rfl | ring)\n")
     # ---------------------------------------------------------------------------------------- single-ended lists
-    pa = Tr({'param_covs["dalpha"]': "c.aa", 'params["x"]': "x"})
-    alpha_var = pa.tr(P.get('param_covs["alpha"]'))
-    emit(f"def alphaVarS (x : K) (c : Covs K) : K := {alpha_var}")
-    emit("theorem alphaVarS_eq (x : K) (c : Covs K) : alphaVarS x c = c.aa * (x * x) := by unfold alphaVarS; ring\n")
-    atoms_s = {**jatoms("deriv_ds", s_keys), **_covs(COV_S), **MEAS, "deriv_ds.T_dalpha_fw": "(x * J.a)"}
-    base_names, base_terms = var_list(S, "var_fw_dict", {**atoms_s, 'param_covs["alpha"]': "(alphaVarS x c)"})
-    ups = [(tgt, node, test) for tgt, node, test in S.updates if tgt == "var_fw_dict"]
-    if len(ups) != 1 or ups[0][2] != "not fix_alpha":
-        raise Untranslatable(f"var_fw_dict.update sites: {[(a, c) for a, _, c in ups]}")
-    t = Tr(atoms_s)
-    upd = _dict_items(ups[0][1])
-    upd_terms = [t.tr(v) for _, v in upd]
-    emit(f"def varFwS (J : Derivs K) (x vst vast : K) (c : Covs K) : List K :=\n  {_lean_list(base_terms + upd_terms)}")
-    emit("theorem varFwS_eq (J : Derivs K) (x vst vast : K) (c : Covs K) : varFwS J x vst vast c = termsSingle J x vst vast c := by\n"
-         f"  simp only [varFwS, alphaVarS, termsSingle, List.cons.injEq, true_and, and_true]\n  repeat' apply And.intro\n  all_goals (first | rfl | ring)\n")
-    _, fa_terms = var_list(S, "var_fw_dict", {**atoms_s, 'param_covs["alpha"]': "c.aa"})
-    emit(f"def varFwSFixAlpha (J : Derivs K) (vst vast : K) (c : Covs K) : List K :=\n  {_lean_list(fa_terms)}")
-    emit("theorem varFwSFixAlpha_eq (J : Derivs K) (vst vast : K) (c : Covs K) : varFwSFixAlpha J vst vast c = termsSingleFixAlpha J vst vast c := by\n"
-         f"  simp only [varFwSFixAlpha, termsSingleFixAlpha, List.cons.injEq, true_and, and_true]\n  repeat' apply And.intro\n  all_goals (first | rfl | ring)\n")
+    if "terms" in want:
+        pa = Tr({'param_covs["dalpha"]': "c.aa", 'params["x"]': "x"})
+        alpha_var = pa.tr(P.get('param_covs["alpha"]'))
+        emit(f"def alphaVarS (x : K) (c : Covs K) : K := {alpha_var}")
+        emit("theorem alphaVarS_eq (x : K) (c : Covs K) : alphaVarS x c = c.aa * (x * x) := by unfold alphaVarS; ring\n")
+        atoms_s = {**jatoms("deriv_ds", s_keys), **_covs(COV_S), **MEAS, "deriv_ds.T_dalpha_fw": "(x * J.a)"}
+        base_names, base_terms = var_list(S, "var_fw_dict", {**atoms_s, 'param_covs["alpha"]': "(alphaVarS x c)"})
+        ups = [(tgt, node, test) for tgt, node, test in S.updates if tgt == "var_fw_dict"]
+        if len(ups) != 1 or ups[0][2] != "not fix_alpha":
+            raise Untranslatable(f"var_fw_dict.update sites: {[(a, c) for a, _, c in ups]}")
+        t = Tr(atoms_s)
+        upd = _dict_items(ups[0][1])
+        upd_terms = [t.tr(v) for _, v in upd]
+        emit(f"def varFwS (J : Derivs K) (x vst vast : K) (c : Covs K) : List K :=\n  {_lean_list(base_terms + upd_terms)}")
+        emit("theorem varFwS_eq (J : Derivs K) (x vst vast : K) (c : Covs K) : varFwS J x vst vast c = termsSingle J x vst vast c := by\n"
+             f"  simp only [varFwS, alphaVarS, termsSingle, List.cons.injEq, true_and, and_true]\n  repeat' apply And.intro\n  all_goals (first | rfl | ring)\n")
+        _, fa_terms = var_list(S, "var_fw_dict", {**atoms_s, 'param_covs["alpha"]': "c.aa"})
+        emit(f"def varFwSFixAlpha (J : Derivs K) (vst vast : K) (c : Covs K) : List K :=\n  {_lean_list(fa_terms)}")
+        emit("theorem varFwSFixAlpha_eq (J : Derivs K) (vst vast : K) (c : Covs K) : varFwSFixAlpha J vst vast c = termsSingleFixAlpha J vst vast c := by\n"
+             f"  simp only [varFwSFixAlpha, termsSingleFixAlpha, List.cons.injEq, true_and, and_true]\n  repeat' apply And.intro\n  all_goals (first | rfl | ring)\n")
     # ---------------------------------------------------------------------------------------- Monte Carlo: the same equations
-    MD = Block(M["monte_carlo_double_ended"])
-    MS = Block(M["monte_carlo_single_ended"])
-    mc_atoms = {'params["gamma_mc"]': "γ", 'np.log(params["r_st"] / params["r_ast"])': "IF", 'np.log(params["r_rst"] / params["r_rast"])': "IB",
-                'np.log(params["r_st"]) - np.log(params["r_ast"])': "IF",
-                'params["df_mc"]': "df", 'params["db_mc"]': "db", 'params["alpha_mc"]': "α", 'params["talpha_fw_mc"]': "τF",
-                'params["talpha_bw_mc"]': "τB", 'params["c_mc"]': "cc", 'params["ta_mc_arr"]': "τF", 'params["dalpha_mc"]': "dα", "params.x": "x"}
-    t = Tr(mc_atoms)
-    fw = [v for k, v in MD.all if k == 'params["tmpf_mc_set"]']
-    bw = [v for k, v in MD.all if k == 'params["tmpb_mc_set"]']
-    if len(fw) != 2 or len(bw) != 2:
-        raise Untranslatable(f"monte_carlo_double_ended assigns tmpf_mc_set {len(fw)}x and tmpb_mc_set {len(bw)}x (expected with/without splices)")
-    for k, node in enumerate(fw):
-        txt = t.tr(node)
-        with_ta = "τF" in txt
-        emit(f"def mcTmpfD{k} (γ IF df α τF c273 : K) : K := {txt}")
-        emit(f"theorem mcTmpfD{k}_eq (γ IF df α τF c273 : K) : mcTmpfD{k} γ IF df α τF c273 = tmpfD γ IF df α {'τF' if with_ta else '0'} - c273 := by\n"
-             f"  unfold mcTmpfD{k} tmpfD; ring")
-    for k, node in enumerate(bw):
-        txt = t.tr(node)
-        with_ta = "τB" in txt
-        emit(f"def mcTmpbD{k} (γ IB db α τB c273 : K) : K := {txt}")
-        emit(f"theorem mcTmpbD{k}_eq (γ IB db α τB c273 : K) : mcTmpbD{k} γ IB db α τB c273 = tmpbD γ IB db α {'τB' if with_ta else '0'} - c273 := by\n"
-             f"  unfold mcTmpbD{k} tmpbD; ring")
-    if sorted("τF" in t.tr(n) for n in fw) != [False, True] or sorted("τB" in t.tr(n) for n in bw) != [False, True]:
-        raise Untranslatable("the Monte Carlo equations no longer come as one version with and one without the splice term")
-    sg = [v for k, v in MS.all if k == 'params["tmpf_mc_set"]']
-    if len(sg) != 2:
-        raise Untranslatable(f"monte_carlo_single_ended assigns tmpf_mc_set {len(sg)}x (expected fixed-alpha / dalpha versions)")
-    kinds = []
-    for k, node in enumerate(sg):
-        txt = t.tr(node)
-        dal = "dα" in txt
-        kinds.append(dal)
-        emit(f"def mcTmpfS{k} (γ IF cc α dα x τF c273 : K) : K := {txt}")
-        emit(f"theorem mcTmpfS{k}_eq (γ IF cc α dα x τF c273 : K) : mcTmpfS{k} γ IF cc α dα x τF c273 = tmpfS γ IF cc {'(dα * x)' if dal else 'α'} τF - c273 := by\n"
-             f"  unfold mcTmpfS{k} tmpfS; ring")
-    if sorted(kinds) != [False, True]:
-        raise Untranslatable("the single-ended Monte Carlo equations are no longer one alpha and one dalpha*x version")
-    # weighted mean of the realisations
-    ix = [i for i, (k, _) in enumerate(MD.all) if k == "tmpw_var"]
-    if len(ix) != 1:
-        raise Untranslatable("monte_carlo_double_ended: assignment to tmpw_var not found exactly once")
-    tw = Tr({'out["tmpf_mc_var"]': "vf", 'out["tmpb_mc_var"]': "vb", "tmpw_var": "(mcApprox vf vb)", 'params["tmpf_mc_set"]': "tf",
-             'params["tmpb_mc_set"]': "tb", 'result["tmpf"]': "tf", 'result["tmpb"]': "tb"})
-    emit(f"def mcApprox (vf vb : K) : K := {tw.tr(MD.all[ix[0]][1])}")
-    emit("theorem mcApprox_eq (vf vb : K) : mcApprox vf vb = C06.approx vf vb := rfl")
-    qs = [v for k, v in MD.all[ix[0]:] if k == "q"]
-    if not qs:
-        raise Untranslatable("monte_carlo_double_ended: weighted realisation q not found")
-    emit(f"def mcTmpwSet (tf tb vf vb : K) : K := {tw.tr(qs[0])}")
-    emit("theorem mcTmpwSet_eq (tf tb vf vb : K) : mcTmpwSet tf tb vf vb = C06.tmpw tf tb vf vb := rfl")
-    emit(f"def mcTmpw (tf tb vf vb : K) : K := {tw.tr(MD.get('out[\"tmpw\"]'))}")
-    emit("theorem mcTmpw_eq (tf tb vf vb : K) : mcTmpw tf tb vf vb = C06.tmpw tf tb vf vb := rfl")
-    if ast.unparse(MD.get('params["tmpw_mc_set"]')) != "q":
-        raise Untranslatable("params['tmpw_mc_set'] is no longer the weighted realisation q")
+    if "mc" in want:
+        MD = Block(M["monte_carlo_double_ended"])
+        MS = Block(M["monte_carlo_single_ended"])
+        mc_atoms = {'params["gamma_mc"]': "γ", 'np.log(params["r_st"] / params["r_ast"])': "IF", 'np.log(params["r_rst"] / params["r_rast"])': "IB",
+                    'np.log(params["r_st"]) - np.log(params["r_ast"])': "IF",
+                    'params["df_mc"]': "df", 'params["db_mc"]': "db", 'params["alpha_mc"]': "α", 'params["talpha_fw_mc"]': "τF",
+                    'params["talpha_bw_mc"]': "τB", 'params["c_mc"]': "cc", 'params["ta_mc_arr"]': "τF", 'params["dalpha_mc"]': "dα", "params.x": "x"}
+        t = Tr(mc_atoms)
+        fw = [v for k, v in MD.all if k == 'params["tmpf_mc_set"]']
+        bw = [v for k, v in MD.all if k == 'params["tmpb_mc_set"]']
+        if len(fw) != 2 or len(bw) != 2:
+            raise Untranslatable(f"monte_carlo_double_ended assigns tmpf_mc_set {len(fw)}x and tmpb_mc_set {len(bw)}x (expected with/without splices)")
+        for k, node in enumerate(fw):
+            txt = t.tr(node)
+            with_ta = "τF" in txt
+            emit(f"def mcTmpfD{k} (γ IF df α τF c273 : K) : K := {txt}")
+            emit(f"theorem mcTmpfD{k}_eq (γ IF df α τF c273 : K) : mcTmpfD{k} γ IF df α τF c273 = tmpfD γ IF df α {'τF' if with_ta else '0'} - c273 := by\n"
+                 f"  unfold mcTmpfD{k} tmpfD; ring")
+        for k, node in enumerate(bw):
+            txt = t.tr(node)
+            with_ta = "τB" in txt
+            emit(f"def mcTmpbD{k} (γ IB db α τB c273 : K) : K := {txt}")
+            emit(f"theorem mcTmpbD{k}_eq (γ IB db α τB c273 : K) : mcTmpbD{k} γ IB db α τB c273 = tmpbD γ IB db α {'τB' if with_ta else '0'} - c273 := by\n"
+                 f"  unfold mcTmpbD{k} tmpbD; ring")
+        if sorted("τF" in t.tr(n) for n in fw) != [False, True] or sorted("τB" in t.tr(n) for n in bw) != [False, True]:
+            raise Untranslatable("the Monte Carlo equations no longer come as one version with and one without the splice term")
+        sg = [v for k, v in MS.all if k == 'params["tmpf_mc_set"]']
+        if len(sg) != 2:
+            raise Untranslatable(f"monte_carlo_single_ended assigns tmpf_mc_set {len(sg)}x (expected fixed-alpha / dalpha versions)")
+        kinds = []
+        for k, node in enumerate(sg):
+            txt = t.tr(node)
+            dal = "dα" in txt
+            kinds.append(dal)
+            emit(f"def mcTmpfS{k} (γ IF cc α dα x τF c273 : K) : K := {txt}")
+            emit(f"theorem mcTmpfS{k}_eq (γ IF cc α dα x τF c273 : K) : mcTmpfS{k} γ IF cc α dα x τF c273 = tmpfS γ IF cc {'(dα * x)' if dal else 'α'} τF - c273 := by\n"
+                 f"  unfold mcTmpfS{k} tmpfS; ring")
+        if sorted(kinds) != [False, True]:
+            raise Untranslatable("the single-ended Monte Carlo equations are no longer one alpha and one dalpha*x version")
+        # weighted mean of the realisations
+        ix = [i for i, (k, _) in enumerate(MD.all) if k == "tmpw_var"]
+        if len(ix) != 1:
+            raise Untranslatable("monte_carlo_double_ended: assignment to tmpw_var not found exactly once")
+        tw = Tr({'out["tmpf_mc_var"]': "vf", 'out["tmpb_mc_var"]': "vb", "tmpw_var": "(mcApprox vf vb)", 'params["tmpf_mc_set"]': "tf",
+                 'params["tmpb_mc_set"]': "tb", 'result["tmpf"]': "tf", 'result["tmpb"]': "tb"})
+        emit(f"def mcApprox (vf vb : K) : K := {tw.tr(MD.all[ix[0]][1])}")
+        emit("theorem mcApprox_eq (vf vb : K) : mcApprox vf vb = C06.approx vf vb := rfl")
+        qs = [v for k, v in MD.all[ix[0]:] if k == "q"]
+        if not qs:
+            raise Untranslatable("monte_carlo_double_ended: weighted realisation q not found")
+        emit(f"def mcTmpwSet (tf tb vf vb : K) : K := {tw.tr(qs[0])}")
+        emit("theorem mcTmpwSet_eq (tf tb vf vb : K) : mcTmpwSet tf tb vf vb = C06.tmpw tf tb vf vb := rfl")
+        emit(f"def mcTmpw (tf tb vf vb : K) : K := {tw.tr(MD.get('out[\"tmpw\"]'))}")
+        emit("theorem mcTmpw_eq (tf tb vf vb : K) : mcTmpw tf tb vf vb = C06.tmpw tf tb vf vb := rfl")
+        if ast.unparse(MD.get('params["tmpw_mc_set"]')) != "q":
+            raise Untranslatable("params['tmpw_mc_set'] is no longer the weighted realisation q")
     emit("end DtsVerif.Gen")
-    names = dict(fw=names_fw, bw=names_bw, w=names_w, single=base_names + [k for k, _ in upd])
+    names = dict(fw=names_fw, bw=names_bw, w=names_w, single=base_names + [k for k, _ in upd]) if "terms" in want else {}
     return "\n".join(L) + "\n", names
 
 
@@ -503,7 +514,7 @@ def _close(defs):
     return f"by\n  try simp only [{defs}]\n  all_goals try ring\n  all_goals try omega"
 
 
-def translate_layout(src_root):
+def translate_layout(src_root, parts=("layout", "mcunpack")):
     """Lean text: the index blocks of ParameterIndexDoubleEnded / ParameterIndexSingleEnded as the source computes them, with
     theorems that they are the documented positions `C04.indexD` / `C04.indexS` (all nt, nx, nta)"""
     utils = ast.parse((Path(src_root) / "dtscalibration" / "dts_accessor_utils.py").read_text())
@@ -512,158 +523,160 @@ def translate_layout(src_root):
     emit("\nnamespace DtsVerif.GenLayout\nopen DtsVerif.C04\n")
     sym = _Sym({"self.nt": "nt", "self.nx": "N", "self.nta": "nta", "self.npar": "(nparG nt N nta)"})
     # ------------------------------------------------------------------------------------------------ double ended
-    PD = _class(utils, "ParameterIndexDoubleEnded")
-    flags = dict(fix_gamma=False, fix_alpha=False)
-    env, r = _run_property(PD["npar"], flags)
-    emit(f"def nparG (nt N nta : Nat) : Nat := {sym.expr(r)}")
-    emit("theorem nparG_eq (nt N nta : Nat) : nparG nt N nta = nparD nt N nta := " + _close("nparG, nparD") + "\n")
-    blocks = []
-    for prop, ctor, size in (("gamma", "Sum.inl ()", "1"), ("df", "Sum.inr (Sum.inl j)", "nt"), ("db", "Sum.inr (Sum.inr (Sum.inl j))", "nt"),
-                             ("alpha", "Sum.inr (Sum.inr (Sum.inr (Sum.inl j)))", "N")):
-        env, r = _run_property(PD[prop], flags)
-        lo, hi = _range_of(r, env, sym)
-        emit(f"def {prop}Lo (nt N nta : Nat) : Nat := {lo}")
-        emit(f"def {prop}Hi (nt N nta : Nat) : Nat := {hi}")
-        emit(f"theorem {prop}_size (nt N nta : Nat) : {prop}Hi nt N nta = {prop}Lo nt N nta + {size} := " + _close(f"{prop}Hi, {prop}Lo"))
-        if prop == "gamma":
-            emit(f"theorem {prop}_slot (nt N nta : Nat) : {prop}Lo nt N nta = indexD nt N nta (Sum.inl ()) := " + _close(f"{prop}Lo, indexD"))
-        else:
-            emit(f"theorem {prop}_slot (nt N nta : Nat) (j : Fin {size}) : {prop}Lo nt N nta + j = indexD nt N nta ({ctor}) := " + _close(f"{prop}Lo, indexD"))
-    env, r = _run_property(PD["ta"], flags)
-    lo, hi, dims, order = _reshape_of(r, env, sym)
-    if len(dims) != 3:
-        raise Untranslatable(f"ta is reshaped to {len(dims)} dimensions")
-    emit(f"def taLo (nt N nta : Nat) : Nat := {lo}")
-    emit(f"def taHi (nt N nta : Nat) : Nat := {hi}")
-    emit(f"theorem ta_size (nt N nta : Nat) : taHi nt N nta = taLo nt N nta + {dims[0]} * {dims[1]} * {dims[2]} := " + _close("taHi, taLo, nparG"))
-    emit(f"def taAt (nt N nta t d a : Nat) : Nat := taLo nt N nta + {_pos(dims, ['t', 'd', 'a'], order)}")
-    emit("theorem ta_slot (nt N nta : Nat) (a : Fin nta) (d : Fin 2) (t : Fin nt) :\n"
-         "    taAt nt N nta t d a = indexD nt N nta (Sum.inr (Sum.inr (Sum.inr (Sum.inr (a, d, t))))) := " + _close("taAt, taLo, indexD") + "\n")
-    # taf / tab: self.ta[:, k, :].flatten(order=O), read back by get_params_from_pval_double_ended with reshape((nt, nta), order=O')
-    G = None
-    for node in ast.walk(utils):
-        if isinstance(node, ast.FunctionDef) and node.name == "get_params_from_pval_double_ended":
-            G = node
-    if G is None:
-        raise Untranslatable("get_params_from_pval_double_ended not found")
-    reads = {}
-    for node in ast.walk(G):
-        if isinstance(node, ast.Call) and isinstance(node.func, ast.Attribute) and node.func.attr == "reshape" \
-                and isinstance(node.func.value, ast.Subscript) and _key(node.func.value.value) == "p_val":
-            which = _key(node.func.value.slice)
-            o = "C"
+    if "layout" in parts:
+        PD = _class(utils, "ParameterIndexDoubleEnded")
+        flags = dict(fix_gamma=False, fix_alpha=False)
+        env, r = _run_property(PD["npar"], flags)
+        emit(f"def nparG (nt N nta : Nat) : Nat := {sym.expr(r)}")
+        emit("theorem nparG_eq (nt N nta : Nat) : nparG nt N nta = nparD nt N nta := " + _close("nparG, nparD") + "\n")
+        blocks = []
+        for prop, ctor, size in (("gamma", "Sum.inl ()", "1"), ("df", "Sum.inr (Sum.inl j)", "nt"), ("db", "Sum.inr (Sum.inr (Sum.inl j))", "nt"),
+                                 ("alpha", "Sum.inr (Sum.inr (Sum.inr (Sum.inl j)))", "N")):
+            env, r = _run_property(PD[prop], flags)
+            lo, hi = _range_of(r, env, sym)
+            emit(f"def {prop}Lo (nt N nta : Nat) : Nat := {lo}")
+            emit(f"def {prop}Hi (nt N nta : Nat) : Nat := {hi}")
+            emit(f"theorem {prop}_size (nt N nta : Nat) : {prop}Hi nt N nta = {prop}Lo nt N nta + {size} := " + _close(f"{prop}Hi, {prop}Lo"))
+            if prop == "gamma":
+                emit(f"theorem {prop}_slot (nt N nta : Nat) : {prop}Lo nt N nta = indexD nt N nta (Sum.inl ()) := " + _close(f"{prop}Lo, indexD"))
+            else:
+                emit(f"theorem {prop}_slot (nt N nta : Nat) (j : Fin {size}) : {prop}Lo nt N nta + j = indexD nt N nta ({ctor}) := " + _close(f"{prop}Lo, indexD"))
+        env, r = _run_property(PD["ta"], flags)
+        lo, hi, dims, order = _reshape_of(r, env, sym)
+        if len(dims) != 3:
+            raise Untranslatable(f"ta is reshaped to {len(dims)} dimensions")
+        emit(f"def taLo (nt N nta : Nat) : Nat := {lo}")
+        emit(f"def taHi (nt N nta : Nat) : Nat := {hi}")
+        emit(f"theorem ta_size (nt N nta : Nat) : taHi nt N nta = taLo nt N nta + {dims[0]} * {dims[1]} * {dims[2]} := " + _close("taHi, taLo, nparG"))
+        emit(f"def taAt (nt N nta t d a : Nat) : Nat := taLo nt N nta + {_pos(dims, ['t', 'd', 'a'], order)}")
+        emit("theorem ta_slot (nt N nta : Nat) (a : Fin nta) (d : Fin 2) (t : Fin nt) :\n"
+             "    taAt nt N nta t d a = indexD nt N nta (Sum.inr (Sum.inr (Sum.inr (Sum.inr (a, d, t))))) := " + _close("taAt, taLo, indexD") + "\n")
+        # taf / tab: self.ta[:, k, :].flatten(order=O), read back by get_params_from_pval_double_ended with reshape((nt, nta), order=O')
+        G = None
+        for node in ast.walk(utils):
+            if isinstance(node, ast.FunctionDef) and node.name == "get_params_from_pval_double_ended":
+                G = node
+        if G is None:
+            raise Untranslatable("get_params_from_pval_double_ended not found")
+        reads = {}
+        for node in ast.walk(G):
+            if isinstance(node, ast.Call) and isinstance(node.func, ast.Attribute) and node.func.attr == "reshape" \
+                    and isinstance(node.func.value, ast.Subscript) and _key(node.func.value.value) == "p_val":
+                which = _key(node.func.value.slice)
+                o = "C"
+                for kw in node.keywords:
+                    if kw.arg == "order":
+                        o = kw.value.value
+                dims_r = [ast.unparse(d) for d in node.args[0].elts] if node.args and isinstance(node.args[0], ast.Tuple) else None
+                reads[which] = (o, dims_r)
+        for prop, d in (("taf", 0), ("tab", 1)):
+            env, r = _run_property(PD[prop], flags)
+            src = ast.unparse(r)
+            o = None
+            for cand in ("C", "F"):
+                if src == f"self.ta[:, {d}, :].flatten(order='{cand}')":
+                    o = cand
+            if o is None:
+                raise Untranslatable(f"{prop} is no longer self.ta[:, {d}, :].flatten(order=...): {src}")
+            ro, rd = reads.get(f"ip.{prop}", (None, None))
+            if rd != ["ip.nt", "ip.nta"]:
+                raise Untranslatable(f"get_params_from_pval_double_ended no longer reshapes p_val[ip.{prop}] to (ip.nt, ip.nta): {rd}")
+            emit(f"def {prop}Flat (nt nta t a : Nat) : Nat := {_pos(['nt', 'nta'], ['t', 'a'], o)}   -- where flatten puts ta[t, {d}, a]")
+            emit(f"def {prop}Read (nt nta t a : Nat) : Nat := {_pos(['nt', 'nta'], ['t', 'a'], ro)}   -- where the reader looks for [t, a]")
+            emit(f"theorem {prop}_roundtrip (nt nta t a : Nat) : {prop}Flat nt nta t a = {prop}Read nt nta t a := " + _close(f"{prop}Flat, {prop}Read"))
+        emit("")
+        # ------------------------------------------------------------------------------------------------ single ended
+        PS = _class(utils, "ParameterIndexSingleEnded")
+        syms = _Sym({"self.nt": "nt", "self.nx": "N", "self.nta": "nta"})
+        for tag, fl in (("Da", dict(includes_alpha=False, includes_dalpha=True)), ("Al", dict(includes_alpha=True, includes_dalpha=False))):
+            env, r = _run_property(PS["npar"], fl)
+            emit(f"def npar{tag} (nt N nta : Nat) : Nat := {syms.expr(r)}")
+            env, r = _run_property(PS["c"], fl)
+            clo, chi = _range_of(r, env, syms)
+            emit(f"def c{tag}Lo (nt N nta : Nat) : Nat := {clo}")
+            emit(f"def c{tag}Hi (nt N nta : Nat) : Nat := {chi}")
+            emit(f"theorem c{tag}_size (nt N nta : Nat) : c{tag}Hi nt N nta = c{tag}Lo nt N nta + nt := " + _close(f"c{tag}Hi, c{tag}Lo"))
+            env, r = _run_property(PS["taf"], fl)
+            lo, hi, dims, order = _reshape_of(r, env, syms)
+            if len(dims) != 2:
+                raise Untranslatable("single-ended taf is not a 2-d reshape")
+            emit(f"def taf{tag}Lo (nt N nta : Nat) : Nat := {lo}")
+            emit(f"def taf{tag}At (nt N nta t a : Nat) : Nat := taf{tag}Lo nt N nta + {_pos(dims, ['t', 'a'], order)}")
+            emit(f"theorem taf{tag}_size (nt N nta : Nat) : {hi} = taf{tag}Lo nt N nta + {dims[0]} * {dims[1]} := " + _close(f"taf{tag}Lo"))
+            if tag == "Da":
+                env, r = _run_property(PS["dalpha"], fl)
+                dlo, _ = _range_of(r, env, syms)
+                emit(f"theorem nparDa_eq (nt N nta : Nat) : nparDa nt N nta = nparS nt nta := " + _close("nparDa, nparS"))
+                emit(f"theorem dalphaDa_slot (nt nta : Nat) : {dlo} = indexS nt nta (Sum.inr (Sum.inl ())) := " + _close("indexS"))
+                emit("theorem cDa_slot (nt N nta : Nat) (j : Fin nt) : cDaLo nt N nta + j = indexS nt nta (Sum.inr (Sum.inr (Sum.inl j))) := " + _close("cDaLo, indexS"))
+                emit("theorem tafDa_slot (nt N nta : Nat) (a : Fin nta) (t : Fin nt) :\n"
+                     "    tafDaAt nt N nta t a = indexS nt nta (Sum.inr (Sum.inr (Sum.inr (a, t)))) := " + _close("tafDaAt, tafDaLo, indexS"))
+            else:
+                env, r = _run_property(PS["alpha"], fl)
+                alo, ahi = _range_of(r, env, syms)
+                emit(f"theorem alphaAl_block (nt N nta : Nat) : {alo} = 1 ∧ {ahi} = 1 + N ∧ cAlLo nt N nta = 1 + N ∧ tafAlLo nt N nta = 1 + N + nt ∧ "
+                     "nparAl nt N nta = 1 + N + nt + nt * nta := by\n  refine ⟨?_, ?_, ?_, ?_, ?_⟩\n  all_goals try simp only [cAlLo, tafAlLo, nparAl]\n  all_goals try ring")
+                emit("theorem tafAl_slot (nt N nta t a : Nat) : tafAlAt nt N nta t a = 1 + N + nt + a * nt + t := " + _close("tafAlAt, tafAlLo"))
+    # ------------------------------------------------------------------------------------------------ Monte Carlo unpacking
+    if "mcunpack" in parts:
+        acc = ast.parse((Path(src_root) / "dtscalibration" / "dts_accessor.py").read_text())
+        mcd = None
+        for node in ast.walk(acc):
+            if isinstance(node, ast.FunctionDef) and node.name == "monte_carlo_double_ended":
+                mcd = node
+        if mcd is None:
+            raise Untranslatable("monte_carlo_double_ended not found")
+        B = Block(mcd)
+        msym = _Sym({"nt": "nt", "no": "N", "nx_sec": "N", "nta": "nta", "mc_sample_size": "M"})
+        tas = [(i, v) for i, (k, v) in enumerate(B.all) if k == "ta"]
+        if len(tas) != 2:
+            raise Untranslatable(f"monte_carlo_double_ended unpacks the splice block {len(tas)}x (expected: with and without parameter uncertainty)")
+        for n_, (i, node) in enumerate(tas):
+            if not (isinstance(node, ast.Call) and isinstance(node.func, ast.Attribute) and node.func.attr == "reshape"
+                    and isinstance(node.args[0], ast.Tuple)):
+                raise Untranslatable(f"splice block unpacking is not a reshape: {ast.unparse(node)[:80]}")
+            order = "C"
             for kw in node.keywords:
                 if kw.arg == "order":
-                    o = kw.value.value
-            dims_r = [ast.unparse(d) for d in node.args[0].elts] if node.args and isinstance(node.args[0], ast.Tuple) else None
-            reads[which] = (o, dims_r)
-    for prop, d in (("taf", 0), ("tab", 1)):
-        env, r = _run_property(PD[prop], flags)
-        src = ast.unparse(r)
-        o = None
-        for cand in ("C", "F"):
-            if src == f"self.ta[:, {d}, :].flatten(order='{cand}')":
-                o = cand
-        if o is None:
-            raise Untranslatable(f"{prop} is no longer self.ta[:, {d}, :].flatten(order=...): {src}")
-        ro, rd = reads.get(f"ip.{prop}", (None, None))
-        if rd != ["ip.nt", "ip.nta"]:
-            raise Untranslatable(f"get_params_from_pval_double_ended no longer reshapes p_val[ip.{prop}] to (ip.nt, ip.nta): {rd}")
-        emit(f"def {prop}Flat (nt nta t a : Nat) : Nat := {_pos(['nt', 'nta'], ['t', 'a'], o)}   -- where flatten puts ta[t, {d}, a]")
-        emit(f"def {prop}Read (nt nta t a : Nat) : Nat := {_pos(['nt', 'nta'], ['t', 'a'], ro)}   -- where the reader looks for [t, a]")
-        emit(f"theorem {prop}_roundtrip (nt nta t a : Nat) : {prop}Flat nt nta t a = {prop}Read nt nta t a := " + _close(f"{prop}Flat, {prop}Read"))
-    emit("")
-    # ------------------------------------------------------------------------------------------------ single ended
-    PS = _class(utils, "ParameterIndexSingleEnded")
-    syms = _Sym({"self.nt": "nt", "self.nx": "N", "self.nta": "nta"})
-    for tag, fl in (("Da", dict(includes_alpha=False, includes_dalpha=True)), ("Al", dict(includes_alpha=True, includes_dalpha=False))):
-        env, r = _run_property(PS["npar"], fl)
-        emit(f"def npar{tag} (nt N nta : Nat) : Nat := {syms.expr(r)}")
-        env, r = _run_property(PS["c"], fl)
-        clo, chi = _range_of(r, env, syms)
-        emit(f"def c{tag}Lo (nt N nta : Nat) : Nat := {clo}")
-        emit(f"def c{tag}Hi (nt N nta : Nat) : Nat := {chi}")
-        emit(f"theorem c{tag}_size (nt N nta : Nat) : c{tag}Hi nt N nta = c{tag}Lo nt N nta + nt := " + _close(f"c{tag}Hi, c{tag}Lo"))
-        env, r = _run_property(PS["taf"], fl)
-        lo, hi, dims, order = _reshape_of(r, env, syms)
-        if len(dims) != 2:
-            raise Untranslatable("single-ended taf is not a 2-d reshape")
-        emit(f"def taf{tag}Lo (nt N nta : Nat) : Nat := {lo}")
-        emit(f"def taf{tag}At (nt N nta t a : Nat) : Nat := taf{tag}Lo nt N nta + {_pos(dims, ['t', 'a'], order)}")
-        emit(f"theorem taf{tag}_size (nt N nta : Nat) : {hi} = taf{tag}Lo nt N nta + {dims[0]} * {dims[1]} := " + _close(f"taf{tag}Lo"))
-        if tag == "Da":
-            env, r = _run_property(PS["dalpha"], fl)
-            dlo, _ = _range_of(r, env, syms)
-            emit(f"theorem nparDa_eq (nt N nta : Nat) : nparDa nt N nta = nparS nt nta := " + _close("nparDa, nparS"))
-            emit(f"theorem dalphaDa_slot (nt nta : Nat) : {dlo} = indexS nt nta (Sum.inr (Sum.inl ())) := " + _close("indexS"))
-            emit("theorem cDa_slot (nt N nta : Nat) (j : Fin nt) : cDaLo nt N nta + j = indexS nt nta (Sum.inr (Sum.inr (Sum.inl j))) := " + _close("cDaLo, indexS"))
-            emit("theorem tafDa_slot (nt N nta : Nat) (a : Fin nta) (t : Fin nt) :\n"
-                 "    tafDaAt nt N nta t a = indexS nt nta (Sum.inr (Sum.inr (Sum.inr (a, t)))) := " + _close("tafDaAt, tafDaLo, indexS"))
-        else:
-            env, r = _run_property(PS["alpha"], fl)
-            alo, ahi = _range_of(r, env, syms)
-            emit(f"theorem alphaAl_block (nt N nta : Nat) : {alo} = 1 ∧ {ahi} = 1 + N ∧ cAlLo nt N nta = 1 + N ∧ tafAlLo nt N nta = 1 + N + nt ∧ "
-                 "nparAl nt N nta = 1 + N + nt + nt * nta := by\n  refine ⟨?_, ?_, ?_, ?_, ?_⟩\n  all_goals try simp only [cAlLo, tafAlLo, nparAl]\n  all_goals try ring")
-            emit("theorem tafAl_slot (nt N nta t a : Nat) : tafAlAt nt N nta t a = 1 + N + nt + a * nt + t := " + _close("tafAlAt, tafAlLo"))
-    # ------------------------------------------------------------------------------------------------ Monte Carlo unpacking
-    acc = ast.parse((Path(src_root) / "dtscalibration" / "dts_accessor.py").read_text())
-    mcd = None
-    for node in ast.walk(acc):
-        if isinstance(node, ast.FunctionDef) and node.name == "monte_carlo_double_ended":
-            mcd = node
-    if mcd is None:
-        raise Untranslatable("monte_carlo_double_ended not found")
-    B = Block(mcd)
-    msym = _Sym({"nt": "nt", "no": "N", "nx_sec": "N", "nta": "nta", "mc_sample_size": "M"})
-    tas = [(i, v) for i, (k, v) in enumerate(B.all) if k == "ta"]
-    if len(tas) != 2:
-        raise Untranslatable(f"monte_carlo_double_ended unpacks the splice block {len(tas)}x (expected: with and without parameter uncertainty)")
-    for n_, (i, node) in enumerate(tas):
-        if not (isinstance(node, ast.Call) and isinstance(node.func, ast.Attribute) and node.func.attr == "reshape"
-                and isinstance(node.args[0], ast.Tuple)):
-            raise Untranslatable(f"splice block unpacking is not a reshape: {ast.unparse(node)[:80]}")
-        order = "C"
-        for kw in node.keywords:
-            if kw.arg == "order":
-                order = kw.value.value
-        dims = [msym.expr(d) for d in node.args[0].elts]
-        base = node.func.value
-        lead = 0
-        if not isinstance(base, ast.Subscript):
-            raise Untranslatable("splice block is not a slice of the parameter vector")
-        sl = base.slice
-        if isinstance(sl, ast.Tuple):      # po_mc[:, lo:]  -> leading sample axis kept
-            if len(sl.elts) != 2 or ast.unparse(sl.elts[0]) != ":" or dims[0] != "M" or order != "F":
-                raise Untranslatable(f"sampled splice block: unexpected slicing {ast.unparse(base)[:80]}")
-            lead, sl = 1, sl.elts[1]
-        if not (isinstance(sl, ast.Slice) and sl.upper is None and sl.step is None and sl.lower is not None):
-            raise Untranslatable(f"splice block does not run to the end of the vector: {ast.unparse(base)[:80]}")
-        lo = msym.expr(sl.lower)
-        d3 = dims[lead:]
-        if sorted(d3) != ["2", "nt", "nta"]:
-            raise Untranslatable(f"splice block reshaped to {dims}")
-        for name, dval in (("ta_fw", 0), ("ta_bw", 1)):
-            cand = [v for k, v in B.all[i:] if k == name]
-            if not cand:
-                raise Untranslatable(f"{name} not found after the reshape")
-            ix = cand[0]
-            if not (isinstance(ix, ast.Subscript) and _key(ix.value) == "ta" and isinstance(ix.slice, ast.Tuple)
-                    and len(ix.slice.elts) == len(dims)):
-                raise Untranslatable(f"{name} is not an index into ta: {ast.unparse(ix)[:60]}")
-            idx = []
-            for ax, (e, dname) in enumerate(zip(ix.slice.elts[lead:], d3)):
-                if ast.unparse(e) == ":":
-                    idx.append({"nt": "t", "nta": "a"}.get(dname))
-                    if idx[-1] is None:
-                        raise Untranslatable(f"{name}: the direction axis is not selected")
-                elif isinstance(e, ast.Constant) and e.value == dval and dname == "2":
-                    idx.append(str(dval))
-                else:
-                    raise Untranslatable(f"{name}: unexpected index {ast.unparse(e)} on axis of size {dname}")
-            emit(f"def mc{n_}_{name} (nt N nta t a : Nat) : Nat := {lo} + {_pos(d3, idx, order)}")
-            emit(f"theorem mc{n_}_{name}_slot (nt N nta : Nat) (a : Fin nta) (t : Fin nt) :\n"
-                 f"    mc{n_}_{name} nt N nta t a = indexD nt N nta (Sum.inr (Sum.inr (Sum.inr (Sum.inr (a, ({dval} : Fin 2), t))))) := "
-                 + _close(f"mc{n_}_{name}, indexD"))
+                    order = kw.value.value
+            dims = [msym.expr(d) for d in node.args[0].elts]
+            base = node.func.value
+            lead = 0
+            if not isinstance(base, ast.Subscript):
+                raise Untranslatable("splice block is not a slice of the parameter vector")
+            sl = base.slice
+            if isinstance(sl, ast.Tuple):      # po_mc[:, lo:]  -> leading sample axis kept
+                if len(sl.elts) != 2 or ast.unparse(sl.elts[0]) != ":" or dims[0] != "M" or order != "F":
+                    raise Untranslatable(f"sampled splice block: unexpected slicing {ast.unparse(base)[:80]}")
+                lead, sl = 1, sl.elts[1]
+            if not (isinstance(sl, ast.Slice) and sl.upper is None and sl.step is None and sl.lower is not None):
+                raise Untranslatable(f"splice block does not run to the end of the vector: {ast.unparse(base)[:80]}")
+            lo = msym.expr(sl.lower)
+            d3 = dims[lead:]
+            if sorted(d3) != ["2", "nt", "nta"]:
+                raise Untranslatable(f"splice block reshaped to {dims}")
+            for name, dval in (("ta_fw", 0), ("ta_bw", 1)):
+                cand = [v for k, v in B.all[i:] if k == name]
+                if not cand:
+                    raise Untranslatable(f"{name} not found after the reshape")
+                ix = cand[0]
+                if not (isinstance(ix, ast.Subscript) and _key(ix.value) == "ta" and isinstance(ix.slice, ast.Tuple)
+                        and len(ix.slice.elts) == len(dims)):
+                    raise Untranslatable(f"{name} is not an index into ta: {ast.unparse(ix)[:60]}")
+                idx = []
+                for ax, (e, dname) in enumerate(zip(ix.slice.elts[lead:], d3)):
+                    if ast.unparse(e) == ":":
+                        idx.append({"nt": "t", "nta": "a"}.get(dname))
+                        if idx[-1] is None:
+                            raise Untranslatable(f"{name}: the direction axis is not selected")
+                    elif isinstance(e, ast.Constant) and e.value == dval and dname == "2":
+                        idx.append(str(dval))
+                    else:
+                        raise Untranslatable(f"{name}: unexpected index {ast.unparse(e)} on axis of size {dname}")
+                emit(f"def mc{n_}_{name} (nt N nta t a : Nat) : Nat := {lo} + {_pos(d3, idx, order)}")
+                emit(f"theorem mc{n_}_{name}_slot (nt N nta : Nat) (a : Fin nta) (t : Fin nt) :\n"
+                     f"    mc{n_}_{name} nt N nta t a = indexD nt N nta (Sum.inr (Sum.inr (Sum.inr (Sum.inr (a, ({dval} : Fin 2), t))))) := "
+                     + _close(f"mc{n_}_{name}, indexD"))
     emit("\nend DtsVerif.GenLayout")
     return "\n".join(L) + "\n"
 
@@ -874,6 +887,33 @@ def translate_guards(src_root):
         L.append(f"theorem denom{tag}_listed_refused : ∀ c ∈ listed .denom, denomGuard{tag} c = false := by decide")
     L.append("\nend DtsVerif.GenGuards")
     return "\n".join(L) + "\n"
+
+
+# which generated sections tie which property's model to the source (a broken section is reported only for these)
+SECTIONS = {
+    "C04": dict(formulas=("temps",), extra=("layout",)),
+    "C05": dict(formulas=("temps", "derivs", "terms"), extra=()),
+    "C06": dict(formulas=("derivs", "terms", "weighted"), extra=()),
+    "C08": dict(formulas=("temps", "mc"), extra=("mcunpack",)),
+    "C12": dict(formulas=(), extra=("time",)),
+    "C19": dict(formulas=(), extra=("guards",)),
+}
+
+
+def translate_for(prop, src_root):
+    """generated Lean text for one property: only the sections that belong to it"""
+    spec = SECTIONS[prop]
+    text, names = translate(src_root, want=spec["formulas"])
+    for e in spec["extra"]:
+        if e == "layout":
+            text += translate_layout(src_root, parts=("layout",))
+        elif e == "mcunpack":
+            text += translate_layout(src_root, parts=("mcunpack",))
+        elif e == "time":
+            text += translate_time(src_root)
+        elif e == "guards":
+            text += translate_guards(src_root)
+    return text, names
 
 
 def translate_all(src_root):
